@@ -263,18 +263,61 @@ def eval_numpy(prog) -> list[Val]:
     return vals
 
 
+STORE_TARGETS_BY_BUILD: dict = {}
+
+
+def store_targets(arrs):
+    """{node id: (target, is_path)} of the store_lazy nodes of a program built by build_cubed (the list it returned)"""
+    return STORE_TARGETS_BY_BUILD.get(id(arrs), {})
+
+
+def clear_target(target, is_path):
+    """remove what a run wrote to a store_lazy target (chunks of an existing array; everything below a path target)"""
+    store = target if is_path else target.store
+    inner = getattr(store, "_store_dict", None)
+    if inner is not None:
+        for k in list(inner):
+            if is_path or not k.endswith("zarr.json"):
+                del inner[k]
+        return
+    import os
+    import shutil
+
+    root = str(getattr(store, "root", ""))
+    if root and os.path.isdir(root):
+        for dirpath, dirs, files in os.walk(root):
+            for f in files:
+                if is_path or f != "zarr.json":
+                    os.remove(os.path.join(dirpath, f))
+
+
+def read_store_target(target, is_path):
+    import zarr
+
+    z = zarr.open_array(store=target, mode="r") if is_path else target
+    return z, (np.asarray(z[...]) if z.ndim else np.asarray(z[()]))
+
+
 def build_cubed(prog, spec, ctx: Optional[BuildCtx] = None):
     """Returns list of cubed arrays/tuples per node id. Exceptions propagate (caller classifies the phase)."""
     import cubed.array_api as xp
 
     ctx = ctx or BuildCtx()
     arrs = []
+    STORE_TARGETS_BY_BUILD.pop(id(arrs), None)
+    while len(STORE_TARGETS_BY_BUILD) > 16:
+        STORE_TARGETS_BY_BUILD.pop(next(iter(STORE_TARGETS_BY_BUILD)))
     try:
         for inp in prog["inputs"]:
             arrs.append(build_input(inp, spec, ctx))
         for node in prog["nodes"]:
             op = OPS[node["op"]]
             arrs.append(op.cub(xp, [arrs[i] for i in node["args"]], node["params"]))
+            if node["op"] == "store_lazy":
+                from vp import ir as _ir
+
+                # node id -> (target, is_path): the checks that opt in to store_lazy nodes look the targets up here
+                STORE_TARGETS_BY_BUILD.setdefault(id(arrs), {})[len(arrs) - 1] = _ir.STORE_TARGETS[-1]
     except Exception as e:
         e.vp_node_index = len(arrs)
         e.vp_partial = arrs
@@ -557,6 +600,10 @@ def programs(profile="dag", max_ops=6, min_ops=0, n_inputs=(1, 3), opts=None, ou
     names = [n for n in weighted_names(profile) if n not in opts.get("exclude_ops", ())]
     if opts.get("only_ops"):
         names = [n for n in names if n in opts["only_ops"]]
+    if opts.get("store_mid"):
+        # lazy store results used as ordinary nodes (about one operation in twelve, or in opts["store_mid"] when that is a number)
+        k = 12 if opts["store_mid"] is True else int(opts["store_mid"])
+        names = sorted(names + ["store_lazy"] * max(1, len(names) // k))
     if opts.get("rotate") and names:
         r = opts["rotate"] % len(names)
         names = names[r:] + names[:r]  # Hypothesis favours early list positions in its first examples
